@@ -2771,6 +2771,7 @@ func streamLife(c *Ctx) {
 	if left > 0 {
 		c.Fail("life-goroutine-leak", "all lifecycle scenarios finished and their servers closed", fmt.Sprintf("%d goroutines with connect-go frames remain", left), "goroutines started by the library remain after every call was closed")
 	}
+	cutTailProbes(c)
 	// model-comparable ops: sequences of Receive calls over generated bodies (receiveMany)
 	r := c.Rng
 	n := 150
@@ -2795,6 +2796,17 @@ func streamLife(c *Ctx) {
 				items = append(items, bodyItem{kind: "f", data: genPayloadNoReject(r, 20)})
 			}
 		}
+		// the body ends inside the next message - 1 to 4 bytes into its prefix, or inside its
+		// payload - and yet reports a clean end (gRPC: the trailers may well say status 0): never
+		// a successful end of the call (round 13, C04-ms). The unfinished envelope is the last
+		// thing in the body.
+		var cutTail []byte
+		if r.Chance(25) {
+			cutFrame := frame(0, genPayloadNoReject(r, 12))
+			if len(cutFrame) > 5 || r.Chance(50) {
+				cutTail = cutFrame[:1+r.Intn(len(cutFrame)-1)]
+			}
+		}
 		resp := &sresp{status: 200, header: hdr{"Content-Type": {ctFor(proto, "bidi", "raw")}}, trailer: hdr{}}
 		switch r.Intn(4) {
 		case 0: // no terminator
@@ -2817,7 +2829,13 @@ func streamLife(c *Ctx) {
 				resp.trailer = hdr{"Grpc-Status": {"0"}}
 			}
 		}
-		if r.Chance(20) { // messages after the terminator must never be delivered either
+		if cutTail != nil {
+			// in-body terminators would come after the cut: leave them out (gRPC keeps its trailers)
+			for len(items) > 0 && items[len(items)-1].kind != "f" {
+				items = items[:len(items)-1]
+			}
+			items = append(items, bodyItem{kind: "raw", data: cutTail})
+		} else if r.Chance(20) { // messages after the terminator must never be delivered either
 			items = append(items, bodyItem{kind: "f", data: []byte{5}})
 		}
 		if proto != "connect" && r.Chance(20) {
@@ -2893,6 +2911,9 @@ func rseqOp(c *Ctx, op string) {
 			break
 		}
 	}
+	if n := len(resp.body); n > 0 && resp.body[n-1].kind == "raw" && len(resp.body[n-1].data) > 0 && !failed0(results) {
+		c.Fail("cut-inside-message-clean-end", op, ans, "the response body ends inside an envelope: Receive must fail, not report the end of the stream")
+	}
 	c.Count("rseq:" + proto)
 	c.Emit(op, ans, true)
 }
@@ -2950,6 +2971,13 @@ func sseqOp(c *Ctx, op string) {
 	})
 	if changed {
 		c.Fail("life-receive-sticky", op, ans, "after Receive returned false, a later Receive delivered a message or Err() changed its verdict (Close must not wipe it)")
+	}
+	if n := len(resp.body); n > 0 && resp.body[n-1].kind == "raw" && len(resp.body[n-1].data) > 0 && sawFalse && strings.Contains(ans, "e:none") && !strings.Contains(ans, "c e:none") {
+		// (an e:none before the first false Receive is followed by the failure; only look at runs
+		// in which Err() was asked after Receive had returned false and before Close)
+		if i := strings.Index(ans, " f"); i >= 0 && strings.Contains(ans[i:], "e:none") {
+			c.Fail("cut-inside-message-clean-end", op, ans, "the response body ends inside an envelope: Err() must report a failure once Receive returned false")
+		}
 	}
 	c.Count("sseq:" + proto)
 	c.Emit(op, ans, true)
@@ -3036,4 +3064,45 @@ func (r *slowReader) Read(p []byte) (int, error) {
 	n := copy(p, r.data)
 	r.data = r.data[n:]
 	return n, nil
+}
+
+// failed0: the first result that is not a message is a failure (not the end of the stream)
+func failed0(results []string) bool {
+	for _, r := range results {
+		if strings.HasPrefix(r, "fail:") {
+			return true
+		}
+		if r == "eof" {
+			return false
+		}
+	}
+	return true
+}
+
+// cutTailProbes: every way a streaming response can end inside an envelope (1-4 bytes of the
+// prefix, the whole prefix, part of the payload), after 0-2 whole messages, in all three
+// protocols; plain gRPC with HTTP trailers that say status 0, status 9, or nothing.
+func cutTailProbes(c *Ctx) {
+	whole := frame(0, []byte{9, 8, 7, 6})
+	for _, proto := range []string{"connect", "grpc", "grpcweb"} {
+		for _, cut := range []int{1, 2, 3, 4, 5, 7} {
+			for before := 0; before <= 2; before++ {
+				trls := []hdr{{}}
+				if proto == "grpc" {
+					trls = []hdr{{"Grpc-Status": {"0"}}, {"Grpc-Status": {"9"}}, {}}
+				}
+				for _, trl := range trls {
+					var items []bodyItem
+					for i := 0; i < before; i++ {
+						items = append(items, bodyItem{kind: "f", data: []byte{byte(i + 1), 2}})
+					}
+					items = append(items, bodyItem{kind: "raw", data: whole[:cut]})
+					rseqOp(c, fmt.Sprintf("rseq proto=%s max=200 n=%d hdr=%s body=%s trl=%s", proto, before+3,
+						showHdr(hdr{"Content-Type": {ctFor(proto, "bidi", "raw")}}), showBody(items), showHdr(trl)))
+					sseqOp(c, fmt.Sprintf("sseq proto=%s max=200 ops=%s hdr=%s body=%s trl=%s", proto, strings.Repeat("r", before+1)+"erec",
+						showHdr(hdr{"Content-Type": {ctFor(proto, "server", "raw")}}), showBody(items), showHdr(trl)))
+				}
+			}
+		}
+	}
 }
